@@ -114,6 +114,9 @@ type Scanner struct {
 	// afterFirstSlash the slash that begins an annotation has been read, the
 	// byte that tells which kind of annotation has not.
 	afterFirstSlash bool
+
+	// inBlockComment a "###" comment has begun and has not ended.
+	inBlockComment bool
 }
 
 type context struct {
@@ -263,8 +266,9 @@ func (s *Scanner) Next() (lexeme.LexEvent, bool) {
 		panic(err)
 	}
 
-	if s.afterFirstSlash && !s.lengthComputing {
-		// "1 /": the text ends inside the beginning of an annotation.
+	if (s.afterFirstSlash || s.inBlockComment) && !s.lengthComputing {
+		// "1 /", "1 ### c": the text ends inside the beginning of an
+		// annotation, inside a block comment.
 		err := errors.NewDocumentError(s.file, errors.ErrUnexpectedEOF)
 		err.SetIndex(s.dataSize - 1)
 		panic(err)
@@ -1305,6 +1309,7 @@ func stateAnyCommentStart(s *Scanner, c byte) state {
 	} else if s.index < s.dataSize && s.data[s.index] == '#' { // third #
 		s.annotation = annotationNone
 		s.step = stateMultiLineComment
+		s.inBlockComment = true
 		return scanContinue
 	}
 
@@ -1332,6 +1337,7 @@ func stateMultiLineComment(s *Scanner, c byte) state {
 			s.index++ // skip second #
 			s.index++ // skip third #
 			s.step = s.returnToStep.Pop()
+			s.inBlockComment = false
 		}
 	}
 	return scanContinue
